@@ -13,6 +13,8 @@ META = {
 }
 META["technique"] += "; " + 'path-sensitive effect cancellation on refusing returns; counted-reference construction rule'
 META["level"] += " Added after the second round of independent changes: " + '(R2) every refusing return of an apply() (before the op is in the plan) leaves no net effect; (R5) forced_restrictions and blockers_refcnt are reference-counting sets.'
+META["technique"] += "; identity-filter rule on the slot / limiter table primitives"
+META["level"] += " (R6) PigeonHoledSlots.remove_slotting / remove_limiter write back the looked-up list minus the very object given (identity, not equality or slot)."
 META["technique"] += "; " + 'generic pack G on the anchored files (optional-flag shift, closures outliving a loop iteration, single-pass iterables consumed twice, %-templates built from data, in-place writes to class-level / memoised objects, generators mutating what they yielded, memo keys that are projections)'
 
 MOD = "pkgcore.resolver.state"
